@@ -416,9 +416,9 @@ type rawResult struct {
 }
 
 func checkRaw(t testing.TB, c rawCase) error {
-	err := checkRawOnce(t, c)
+	err := guard(func() error { return checkRawOnce(t, c) })
 	if _, ok := err.(*timeoutErr); ok {
-		if err2 := checkRawOnce(t, c); err2 == nil {
+		if err2 := guard(func() error { return checkRawOnce(t, c) }); err2 == nil {
 			vlib.Open(prop).Flaky(c.Kind + ": " + err.Error())
 			return nil
 		} else {
@@ -985,7 +985,7 @@ func runRaw(t *testing.T, name, kind string, checks int) {
 	if vlib.ReplayCase(name, &rc) {
 		if err := checkRaw(t, rc); err != nil {
 			if isInfra(err) {
-				t.Fatalf("%v", err)
+				infraExit(err)
 			}
 			r.Violation(t, name, rc, err.Error())
 		}
@@ -1004,7 +1004,7 @@ func runRaw(t *testing.T, name, kind string, checks int) {
 		r.Case(fmt.Sprintf("%s/clients=%d", kind, len(c.Clients)), fp, func() interface{} { return c })
 		if err := checkRaw(t, c); err != nil {
 			if isInfra(err) {
-				rt.Fatalf("%v", err)
+				infraExit(err)
 			}
 			r.Fail(rt, name, c, "%v", err)
 		}
